@@ -49,10 +49,10 @@ theorem applyPack_slots_other (w : WM) (first : Cmd) (rest : List Cmd) (hfc : is
     (match packStart w first with
       | none => (w, [])
       | some (w1, initial0, sh) =>
-        packFinish info first.entity (isCreateCmd first) (closedMask w1.deps initial0) sh
+        packFinish info first.entity (isCreateCmd first) (packInit (isCreateCmd first) w1.deps initial0) sh
           ((if isCreateCmd first then rest else first :: rest).foldl
             (packStep info first.entity (isCreateCmd first))
-            (w1, { final := closedMask w1.deps initial0 }, []))).1.slots.length =
+            (w1, { final := packInit (isCreateCmd first) w1.deps initial0 }, []))).1.slots.length =
       if isCreateCmd first then (startCreate w first.entity).slots.length else w.slots.length := by
   rw [packStart_other w first hfc, hfc]
   simp only [Bool.false_eq_true, if_false]
